@@ -893,6 +893,59 @@ func gen(seed uint64, tier string) {
 		}
 	}
 
+	// ---- query points on / grazing the interior of a segment, non-dyadic coordinates ----
+	// (cancellation: a formula that subtracts two nearly equal squares is exact on integer grids and
+	// harmless for random query points, but loses everything when the point is numerically ON the
+	// supporting line: coordinates k/10, k/7, k/3 and random floats; the point is interpolated along a
+	// segment in floating point and pushed off it by 0, 1e-12 … 1e-3 of the segment length)
+	nNear := 120
+	if tier == "thorough" {
+		nNear = 2500
+	}
+	for i := 0; i < nNear; i++ {
+		den := []float64{10, 7, 3, 0}[i%4]
+		sc := math.Pow(10, float64(r.Range(-2, 3)))
+		coord := func() float64 {
+			if den == 0 {
+				return (r.Float() - 0.5) * 200 * sc
+			}
+			return float64(r.Range(-700, 700)) / den * sc
+		}
+		mk := func(n int) geom.LineString {
+			l := make(geom.LineString, n)
+			for j := range l {
+				l[j] = geom.Point{X: coord(), Y: coord()}
+			}
+			return l
+		}
+		l := mk(r.Range(2, 5))
+		var g geom.Geom = l
+		if i%3 == 1 { // the grazed line among other members: one NaN must not spread, one minimum must win
+			ml := geom.MultiLineString{mk(r.Range(2, 3)), l, mk(2)}
+			if r.Bool() {
+				ml = geom.MultiLineString{l, mk(r.Range(2, 4))}
+			}
+			g = ml
+		}
+		j := r.Intn(len(l) - 1)
+		a, b := l[j], l[j+1]
+		if a == b {
+			continue
+		}
+		for _, t := range []float64{0.5, r.Float(), []float64{0.1, 0.9, 1. / 3, 0.999, 0.001}[r.Intn(5)]} {
+			for _, off := range []float64{0, 0, 1e-12, 1e-9, 1e-6, 1e-3} {
+				if off != 0 && r.Bool() {
+					off = -off
+				}
+				if off == 0 && r.Bool() {
+					t = r.Float()
+				}
+				q := geom.Point{X: a.X + t*(b.X-a.X) - off*(b.Y-a.Y), Y: a.Y + t*(b.Y-a.Y) + off*(b.X-a.X)}
+				fmt.Fprintf(out, "dist f%s %s %s %s\n", lay(r), vproto.F2H(q.X), vproto.F2H(q.Y), G(g))
+			}
+		}
+	}
+
 	// ---- buffers ----
 	for i := 0; i < nBuf; i++ {
 		n := []int{3, 4, 5, 6, 8, 12, 17, 36, 90, 360, 720}[r.Intn(11)]
